@@ -1,19 +1,19 @@
 """C04 configuration (format: lib/props.py)."""
 
-_A = ["--watchdog", "60"]
+_A = ["--watchdog", "25"]     # a case takes milliseconds; the runner re-runs a stalled case alone (case_timeout) before calling it a hang
 PROP = dict(
     harnesses={"c04_signal": dict(sources=["harness/c04_signal.cpp"])},
     legs=[
-        dict(name="histories", harness="c04_signal", flavour="asan", mode="random", quick=6000, thorough=1000000, args=_A, case_timeout=120, concurrent=True),
-        dict(name="enum-depth5", harness="c04_signal", flavour="asan", mode="enum", quick=67228, thorough=0, args=_A + ["--depth", "5"], case_timeout=120,
+        dict(name="histories", harness="c04_signal", flavour="asan", mode="random", quick=6000, thorough=1000000, args=_A, case_timeout=20, concurrent=True),
+        dict(name="enum-depth5", harness="c04_signal", flavour="asan", mode="enum", quick=67228, thorough=0, args=_A + ["--depth", "5"], case_timeout=20,
              scalable=False, exhaustive=True, concurrent=True),
-        dict(name="enum-depth6", harness="c04_signal", flavour="asan", mode="enum", quick=0, thorough=470596, args=_A + ["--depth", "6"], case_timeout=120,
+        dict(name="enum-depth6", harness="c04_signal", flavour="asan", mode="enum", quick=0, thorough=470596, args=_A + ["--depth", "6"], case_timeout=20,
              scalable=False, exhaustive=True, concurrent=True),
-        dict(name="badsig", harness="c04_signal", flavour="asan", mode="badsig", quick=1500, thorough=150000, args=_A, case_timeout=120,
+        dict(name="badsig", harness="c04_signal", flavour="asan", mode="badsig", quick=1500, thorough=150000, args=_A, case_timeout=20,
              seed_offset=104729, concurrent=True),
         dict(name="disposition-matrix", harness="c04_signal", flavour="asan", mode="matrix", quick=320, thorough=320, args=["--watchdog", "0"],
-             case_timeout=120, scalable=False, exhaustive=True),
-        dict(name="tsan-histories", harness="c04_signal", flavour="tsan", mode="random", quick=600, thorough=40000, args=_A + ["--only-raise", "1"], case_timeout=120,
+             case_timeout=20, scalable=False, exhaustive=True),
+        dict(name="tsan-histories", harness="c04_signal", flavour="tsan", mode="random", quick=600, thorough=40000, args=_A + ["--only-raise", "1"], case_timeout=20,
              seed_offset=7919, concurrent=True),
     ],
     rule=("histories: 1-3 real loops (epoll/select), each on its own thread; 1-4 of the signals SIGUSR1 SIGUSR2 SIGHUP SIGRTMIN+3..5, each given a seeded "
